@@ -191,6 +191,7 @@ fn cli_slice(cfg: &Cfg, sink: &Sink) -> u64 {
     ];
     for (args, want, what) in cases {
         n += 1;
+        let args: Vec<&str> = args;
         kit.reset_log();
         sink.exec();
         let run = cli::blockwatch(&cfg.bin, &repo.dir, &args, None, &[("BLOCKWATCH_LUA_MODE", "safe")], 30);
@@ -214,7 +215,21 @@ fn cli_slice(cfg: &Cfg, sink: &Sink) -> u64 {
                             sink.fail(format!("C14:cli:wrong-selection:{what}"), format!("{what}: expected {want_codes:?}, got {got:?}, status {:?}", run.code), input.clone());
                         }
                         if calls != usize::from(want_codes.contains(&"check-lua")) {
-                            sink.fail(format!("C14:cli:side-effect:{what}"), format!("{what}: {calls} Lua calls"), input);
+                            sink.fail(format!("C14:cli:side-effect:{what}"), format!("{what}: {calls} Lua calls"), input.clone());
+                        }
+                        // The same selection in diff mode (every line added) with a path argument
+                        // that matches no file: every block is modified and named by the diff.
+                        n += 1;
+                        kit.reset_log();
+                        sink.exec();
+                        let diff: String = repo_files.files.iter().map(|(f, t)| cli::new_file_diff(f, t)).collect();
+                        let mut dargs = args.clone();
+                        dargs.push("nomatch/**");
+                        let drun = cli::blockwatch(&cfg.bin, &repo.dir, &dargs, Some(&diff), &[("BLOCKWATCH_LUA_MODE", "safe")], 30);
+                        let mut dgot: Vec<String> = drun.diags().map(|d| d.iter().map(|d| d.code.clone()).collect()).unwrap_or_default();
+                        dgot.sort();
+                        if drun.panicked() || dgot != want_codes || drun.code != Some(if error_remains { 1 } else { 0 }) {
+                            sink.fail(format!("C14:cli:wrong-selection-in-diff-mode:{what}"), format!("{what} with a diff naming every file and the path argument `nomatch/**`: expected {want_codes:?}, got {dgot:?}, status {:?}", drun.code), input);
                         }
                     }
                     Err(e) => sink.fail(format!("C14:cli:unreadable-report:{what}"), format!("{what}: {e}"), input),
